@@ -615,6 +615,14 @@ func runOne(spec *runSpec) runResult {
 		if spec.Seed == 0 {
 			return
 		}
+		if name == "register" {
+			// hold the registration loop long enough for an already started task to reach its own
+			// e.compile(dep): harmless while the loop holds e.mu, revealing if it does not
+			if k%2 == 0 {
+				time.Sleep(400 * time.Microsecond)
+			}
+			return
+		}
 		x := (seed + uint64(k)*0xBF58476D1CE4E5B9)
 		x ^= x >> 31
 		x *= 0x94D049BB133111EB
